@@ -1,0 +1,75 @@
+//go:build verif
+
+package streampool
+
+// Read-only accessors for the /verif correspondence harness (property C19). No behaviour change.
+
+// VerifStreamView is what the pool records for one stream.
+type VerifStreamView struct {
+	StreamId uint32
+	PeerId   string
+	Tags     []string
+	QueueLen int
+}
+
+// VerifSnapshot is a copy of the three pool indexes taken under the pool lock.
+type VerifSnapshot struct {
+	Streams []VerifStreamView
+	ByPeer  map[string][]uint32
+	ByTag   map[string][]uint32
+}
+
+// VerifSnapshotOf copies the indexes of a pool created by New / NewStreamPool.
+func VerifSnapshotOf(p StreamPool) (snap VerifSnapshot, ok bool) {
+	s, ok := p.(*streamPool)
+	if !ok {
+		return snap, false
+	}
+	s.mu.Lock()
+	defer s.mu.Unlock()
+	snap.ByPeer = make(map[string][]uint32, len(s.streamIdsByPeer))
+	snap.ByTag = make(map[string][]uint32, len(s.streamIdsByTag))
+	for id, st := range s.streams {
+		v := VerifStreamView{StreamId: id}
+		if st != nil {
+			v.PeerId = st.peerId
+			v.Tags = append([]string(nil), st.tags...)
+			v.QueueLen = st.queue.Len()
+		}
+		snap.Streams = append(snap.Streams, v)
+	}
+	for k, ids := range s.streamIdsByPeer {
+		snap.ByPeer[k] = append([]uint32(nil), ids...)
+	}
+	for k, ids := range s.streamIdsByTag {
+		snap.ByTag[k] = append([]uint32(nil), ids...)
+	}
+	return snap, true
+}
+
+// VerifStreamHandle returns an opaque handle of a stream that is currently in the pool (nil if absent);
+// the handle stays usable after the stream was removed.
+func VerifStreamHandle(p StreamPool, streamId uint32) any {
+	s, ok := p.(*streamPool)
+	if !ok {
+		return nil
+	}
+	s.mu.Lock()
+	defer s.mu.Unlock()
+	st := s.streams[streamId]
+	if st == nil {
+		return nil
+	}
+	return st
+}
+
+// VerifQueueStats returns the number of buffered messages and the number of messages the queue has handed
+// to the write loop so far.
+func VerifQueueStats(handle any) (buffered int, issued int64) {
+	st, ok := handle.(*stream)
+	if !ok || st == nil {
+		return 0, 0
+	}
+	_, _, _, issued = st.queue.Stats()
+	return st.queue.Len(), issued
+}
